@@ -372,4 +372,12 @@ theorem sim_unquoted (cfg : Cfg) (fuel : Nat) (x : S) (hp : PL.Inv x.d.g x.d.pl)
   · intro hy; simp only [(c4 hy).1, if_true]
   · intro hy; simp only [c5 hy, Option.isSome_none, Bool.false_eq_true, if_false]
 
+/-- without an allocation failure the unquoted key is within the length limit (the builder kept its node) -/
+theorem sim_unquoted_len (cfg : Cfg) (fuel : Nat) (x : S) (hp : PL.Inv x.d.g x.d.pl) (hb : sim_BOK cfg x.b)
+    (h31 : 31 ≤ cfg.maxStrLen) (h0 : x.d.overflowed = false)
+    (hy : (unquoted cfg fuel x).2.2.d.overflowed = false) : (parseUnquoted fuel [] x.s).1.length ≤ cfg.maxStrLen := by
+  have hs : (startString x).s = x.s := (sim_startString cfg x hp).1
+  rw [sim_unquoted_eq, hs] at hy
+  exact ((sim_builder cfg x (parseUnquoted fuel [] x.s).2 (parseUnquoted fuel [] x.s).1.length hp hb h31 h0).2.2.2.1 hy).2
+
 end JDD
